@@ -135,16 +135,17 @@ type DB struct {
 	axioms  []*Clause
 	fields  map[string]*FieldAnn
 	locks   map[string]*LockAnn
+	discs   map[string]*FuncContract // "discipline <func> requires held(x) [&& confined(y)]": lock-discipline preconditions (C17 sweep only)
 	files   []string
 	modsets map[string][]string
 }
 
 func newDB() *DB {
 	return &DB{funcs: map[string]*FuncContract{}, ghosts: map[string]*GhostVar{}, defines: map[string]*Macro{},
-		specs: map[string]*SpecFun{}, fields: map[string]*FieldAnn{}, locks: map[string]*LockAnn{}, modsets: map[string][]string{}}
+		specs: map[string]*SpecFun{}, fields: map[string]*FieldAnn{}, locks: map[string]*LockAnn{}, discs: map[string]*FuncContract{}, modsets: map[string][]string{}}
 }
 
-var clauseKeywords = map[string]bool{"assumes": true, "interference": true, "defines": true, "modset": true, "end": true, "filter": true, "func": true, "iface": true, "extern": true, "ghost": true, "field": true, "lock": true,
+var clauseKeywords = map[string]bool{"assumes": true, "interference": true, "defines": true, "modset": true, "end": true, "filter": true, "func": true, "iface": true, "extern": true, "ghost": true, "field": true, "lock": true, "discipline": true,
 	"requires": true, "ensures": true, "modifies": true, "loop": true, "define": true, "spec": true, "axiom": true,
 	"let": true, "lemma": true, "assume": true}
 
@@ -407,6 +408,25 @@ func (db *DB) parseClause(text, file string, line int, pkg string, cur **FuncCon
 		}
 		db.ghosts[fs[0]] = &GhostVar{Name: fs[0], Type: strings.TrimSpace(fs[1])}
 		return nil
+	case "discipline":
+		// discipline <func target> requires <expr>   (conjunction of held(x) / confined(x))
+		ri := strings.Index(rest, " requires ")
+		if ri < 0 {
+			return fmt.Errorf("discipline <func> requires <expr>")
+		}
+		target := strings.TrimSpace(rest[:ri])
+		c, err := mkClause("requires", strings.TrimSpace(rest[ri+len(" requires "):]))
+		if err != nil {
+			return err
+		}
+		key := resolveTarget("func", target, pkg)
+		dc := db.discs[key]
+		if dc == nil {
+			dc = &FuncContract{Kind: "func", Target: target, Key: key, Pkg: pkg, Loops: map[int]*LoopContract{}, Defines: map[string]*Macro{}, Specs: map[string]*SpecFun{}, File: file, Line: line}
+			db.discs[key] = dc
+		}
+		dc.Requires = append(dc.Requires, c)
+		return nil
 	case "field":
 		fs := strings.Fields(rest)
 		if len(fs) < 2 {
@@ -422,7 +442,10 @@ func (db *DB) parseClause(text, file string, line int, pkg string, cur **FuncCon
 	case "lock":
 		fs := strings.Fields(rest)
 		i := strings.LastIndex(fs[0], ".")
-		la := &LockAnn{Type: fs[0][:i], Field: fs[0][i+1:]}
+		la := &LockAnn{Field: fs[0][i+1:]}
+		if i >= 0 {
+			la.Type = fs[0][:i] // a mutex field; otherwise a package-level mutex
+		}
 		for j := 1; j < len(fs); j++ {
 			if fs[j] == "level" && j+1 < len(fs) {
 				la.Level, _ = strconv.Atoi(fs[j+1])
